@@ -123,6 +123,13 @@ def o_roundtrip(rec: Recorder, case, soft=False):
         # lmhash takes bytes as already OEM-encoded (upper-casing of ASCII only): equivalent for ASCII text
         if secret.isascii() and h.verify(other, hs, **ctx) is not True:
             rec.fail(f"C01/text-bytes/{name}", "lmhash: ASCII password as text and bytes verify differently", "roundtrip", case, repr(other), True, soft=soft)
+    # the documented legacy call form hash(secret, **settings, **context): settings and context keywords both reach the hasher
+    legacy = dict(settings) if settings and "salt" in settings else ({"truncate_error": False} if "truncate_error" in getattr(h, "setting_kwds", ()) and not settings else None)
+    if ctx and legacy is not None and (f.maxlen is None or len(secret.encode("utf-8", "surrogatepass") if isinstance(secret, str) else secret) <= (f.trunc or 10**9)):
+        st, hs2 = call(h.hash, secret, **legacy, **ctx)
+        if st == "err" or (hs2 != hs and not f.salt is None and "salt" in legacy) or h.verify(secret, hs2, **ctx) is not True or (not f.salt and hs2 != hs):
+            rec.fail(f"C01/hash-settings-and-context/{name}", f"{name}.hash(secret, **settings, **context) differs from using(**settings).hash(secret, **context)", "roundtrip", case, repr(hs2)[:120], hs, soft=soft)
+            return
     # context values (user, realm) are text or the equivalent encoded bytes, like the password itself
     for k in ("user", "realm"):
         if isinstance(ctx.get(k), str):
